@@ -37,7 +37,7 @@ def run(tier, replay=None):
         # executions of exactly 2^k - 2, 2^k - 1, 2^k cycles (padded-length boundaries)
         progs += vmtrace.cycle_boundary_programs(wd, targets=(62, 63, 64, 126, 127, 128, 254, 255, 256, 510, 511, 512) if thorough else (62, 63, 64, 127, 128))
         progs += vmtrace.chiplet_boundary_programs(thorough)
-        progs += vmtrace.callee_shape_programs() + vmtrace.fri_programs() + vmtrace.range_gap_programs(thorough)
+        progs += vmtrace.callee_shape_programs() + vmtrace.ctx_switch_programs() + vmtrace.fri_programs() + vmtrace.range_gap_programs(thorough)
     # (i) rows against the specification
     rec = vmtrace.record(progs, wd, "release")
     rows, states, rejects, runs = vmtrace.validate(rec, wd, "c03")
